@@ -5,7 +5,7 @@ CHECK = {
     "runs": three("c10_gc", [], scales=(0.25, 0.3, 1.0)) +
             # > 32768 x capacity retirements through a tiny queue (16-bit slot-version wrap under a full queue);
             # added after the seeded change C10-a2 escaped
-            three("c10_gc", [], scales=(0.34, 0.67, 1.0), mode="wrap"),
+            three("c10_gc", [], scales=(0.25, 0.5, 1.0), mode="wrap"),
     "parallel": 6,
     "design_ref": "DESIGN.md §5 C10",
     "technique": "seeded retire / region / stop episodes on the real GarbageCollector under schedule perturbation (hook "
